@@ -177,8 +177,10 @@ class SeriesVal:
         return s
 
     def derive(self, at=None, null=None, sel=None, kind=None, name="__same__"):
+        # views / same-kind derivations keep the dtype OBJECT (asking its class twice gives one answer)
+        dt = self.dtype if kind in (None, self.kind) else None
         s = SeriesVal(self.space, at or self._at, null or self._null, sel or self._sel,
-                      self.name if name == "__same__" else name, kind or self.kind, self.dtype_)
+                      self.name if name == "__same__" else name, kind or self.kind, dt)
         return s
 
     # ---- element access (z3 level) -----------------------------------------------------
@@ -300,11 +302,21 @@ class SeriesVal:
     def dropna(self):
         return self.derive(sel=lambda i: z3.And(self._sel(i), z3.Not(self.null(i))), null=lambda i: z3.BoolVal(False))
 
-    def fillna(self, value):
+    def fillna(self, value, inplace=False, **kw):
+        if inplace is True:
+            # in-place fill: a write to this object's buffers - and to every object that shares them (shallow copies / the original)
+            for o in (self, getattr(self, "buffer_root", None)):
+                if o is not None:
+                    o.mutations.append(("fillna", None)) if hasattr(o, "mutations") else None
+                    cur().event("data_write", o, "fillna")
+            return None
         return self.derive(at=lambda i: ite(SBool(self.null(i)), value, self.at(i)), null=lambda i: z3.BoolVal(False))
 
     def copy(self, deep=True):
-        return self.derive()
+        r = self.derive()
+        if deep is False:
+            r.buffer_root = getattr(self, "buffer_root", None) or self  # a shallow copy is a new container over the SAME buffers
+        return r
 
     def astype(self, t):
         if t is bool and self.kind == "bool":
@@ -464,6 +476,13 @@ class DTypeVal(SAny):
     def __init__(self, name="dtype"):
         super().__init__(name=name)
         self._kind = None
+        self._isinst = {}
+
+    def pyvc_isinstance(self, c):
+        # one (unconstrained) answer per dtype object and class: asking twice gives the same answer
+        if c not in self._isinst:
+            self._isinst[c] = core.sym_bool(f"isinstance(dtype,{getattr(c, '__name__', c)})")
+        return self._isinst[c]
 
     @property
     def kind(self):
@@ -884,10 +903,15 @@ class FrameVal:
         if not I.truth(self.has_col(k)):
             I.raise_py(KeyError, k)
         c = self.col_fn(k)
-        return c.derive(sel=self._sel)
+        r = c.derive(sel=self._sel)
+        r.buffer_root = getattr(self, "buffer_root", None) or self  # a column taken out of a frame is a view of the frame's buffers
+        return r
 
     def copy(self, deep=True):
-        return self.derive()
+        r = self.derive()
+        if deep is False:
+            r.buffer_root = getattr(self, "buffer_root", None) or self
+        return r
 
     def duplicated(self, subset=None, keep="first"):
         """DataFrame.duplicated(subset, keep): row i is marked iff another selected row (earlier / later / any, by `keep`) agrees with it
